@@ -31,7 +31,7 @@ impl Property for C16 {
         "C16"
     }
     fn rule(&self) -> String {
-        "Cases: one operand of any zoo type/length/provenance (spare capacity, heap-mode Bv, produced-by-operation included); values biased to run-length patterns. Enumerated: all values n<=12 (quick)/18 (thorough) on all 20 types; for every n<=min(C,260) and every run length r<=n at either end, both polarities, with an interrupting opposite bit at {none, r, r+1, next word boundary, n-1}. Oracle: counting on the bit list for leading_zeros/leading_ones/trailing_zeros/trailing_ones/significant_bits/is_zero, plus the stated identities (lz+significant_bits=len, is_zero iff significant_bits=0, counts<=len, uniform => len, empty => 0). Non-trivial: some run r with 0<r<n whose boundary is within 1 of a storage-word boundary or which spans >= 2 words. Distinct by hash of the case.".into()
+        "Cases: one operand of any zoo type/length/provenance (spare capacity, heap-mode Bv, produced-by-operation included); values biased to run-length patterns. Enumerated: all values n<=12 (quick)/18 (thorough) on all 20 types; for every n<=min(C,260) and every run length r<=n at either end, both polarities, with an interrupting opposite bit at {none, r, r+1, next word boundary, n-1}; long vectors: every length 321..2600 (thorough 8300), 1024..8193 bits with a bit in every word, the 70 400-bit fixed type at 7 lengths and a geometric ladder of lengths around every power of two from 2^14 to 2^21 (thorough 2^24) bits with runs ending around word, 4096-bit and 2^16 boundaries. Oracle: counting on the bit list for leading_zeros/leading_ones/trailing_zeros/trailing_ones/significant_bits/is_zero, plus the stated identities (lz+significant_bits=len, is_zero iff significant_bits=0, counts<=len, uniform => len, empty => 0). Non-trivial: some run r with 0<r<n whose boundary is within 1 of a storage-word boundary or which spans >= 2 words. Distinct by hash of the case.".into()
     }
     fn random_cases(&self, tier: Tier) -> u64 {
         tier.pick(300000, 9600000)
@@ -47,7 +47,7 @@ impl Property for C16 {
     }
     fn enumerate(&self, tier: Tier, sh: &mut Shard, f: &mut dyn FnMut(C16Case) -> bool) {
         let k = tier.pick(12, 18);
-        for t in 0..NT {
+        for t in ROUTINE_TIDS {
             let c = fixed_cap(t).unwrap_or(usize::MAX);
             for n in 0..=k.min(c) {
                 let mut mine = false;
@@ -111,7 +111,49 @@ impl Property for C16 {
                 }
             }
         }
-        for t in 0..NT {
+        // the 70 400-bit fixed type and a geometric ladder of lengths up to megabits (Bvd, Bv):
+        // runs that end around word, 4096-bit and 2^16 boundaries, a single bit, dense, zero
+        let mut long: Vec<(Tid, usize)> = HUGE_TYPE_LENS.iter().map(|&n| (TID_HUGE, n)).collect();
+        long.extend(ladder_lengths(tier));
+        for (t, n) in long {
+            if !sh.mine() {
+                continue;
+            }
+            // (values are produced one at a time: at megabit lengths a list of them is large)
+            let mut j = 0usize;
+            let mut emit = |a: Bits, f: &mut dyn FnMut(C16Case) -> bool| -> bool {
+                j += 1;
+                let prov = if j % 4 == 3 && t != TID_HUGE { Prov::Spare(4200) } else { Prov::Canon };
+                f(C16Case { a: Operand { ty: t, bits: a, prov } })
+            };
+            for a in [Bits::ones(n), Bits::zeros(n), dense_value(n)] {
+                if !emit(a, f) {
+                    return;
+                }
+            }
+            for r in [1usize, 64, 65, 4097, 65535, 65536, 65537, n / 2 + 3, n - 1] {
+                if r >= n {
+                    continue;
+                }
+                for k in 0..5 {
+                    let a = match k {
+                        0 => Bits((0..n).map(|i| i < r).collect()),
+                        1 => Bits((0..n).map(|i| i >= n - r).collect()),
+                        2 => Bits((0..n).map(|i| i >= r).collect()),
+                        3 => Bits((0..n).map(|i| i < n - r).collect()),
+                        _ => {
+                            let mut b = Bits::zeros(n);
+                            b.0[r] = true;
+                            b
+                        }
+                    };
+                    if !emit(a, f) {
+                        return;
+                    }
+                }
+            }
+        }
+        for t in ROUTINE_TIDS {
             let c = fixed_cap(t).unwrap_or(260).min(260);
             let w = WORD_BITS[t as usize];
             for n in 1..=c {
